@@ -103,6 +103,13 @@ class NoPanic:
         self._never_err = {}
         self._tags_of_fn = {}
         self.used_audits = set()
+        self.field_invariants = {}
+        from lib import field_min_len
+        for (adt, field) in (("roughenough::merkle::MerkleTree", "levels"),):
+            n, why = field_min_len(W, adt, field)
+            if n > 0:
+                self.field_invariants[(adt, field)] = n
+            ctx.extra.setdefault("container_invariants", {})["%s.%s" % (adt, field)] = "len >= %d: %s" % (n, why)
 
     # ------------------------------------------------------------------ driver
     def run(self):
@@ -118,6 +125,7 @@ class NoPanic:
             pre = self.compute_pre(fn)
             ev = self.W.ev(p)
             B = Bounds(self.W, fn, ev, pre=pre)
+            B.field_min_len = self.field_invariants
             self.bounds[p] = B
             self.pre[p] = pre
             self.cursor_model(fn, B)
@@ -491,6 +499,15 @@ class NoPanic:
         if sp in PANIC_FNS or sp.startswith("core::panicking::"):
             if B.infeasible(b):
                 return self.rec(fn, b, "panic", self.panic_desc(fn, b, args), "proved", "panic block is infeasible under the branch facts")
+            for r in flow.rel_facts_at(B.IN, b):
+                if r[0] in ("Eq", "Ne") and isinstance(r[1], tuple) and r[1][0] == "discr" and r[2][0] == "int":
+                    xs = values.strip_payload(r[1][1])
+                    # reached only when xs is None / Err
+                    failing = (r[0] == "Eq" and r[2][1] in (0,) and "Option" in str(ev.tty.get(r[1][1], "Option"))) or (r[0] == "Ne" and r[2][1] == 1 and "Option" in str(ev.tty.get(r[1][1], "Option")))
+                    if failing:
+                        why = self.never_fails(fn, B, b, xs)
+                        if why:
+                            return self.rec(fn, b, "panic", self.panic_desc(fn, b, args), "typed", "only reached when %s is None, but %s" % (describe(P, xs), why))
             return self.rec(fn, b, "panic", self.panic_desc(fn, b, args), "open", "explicit panic is reachable")
         if name in PANICKING_CALLS and (sp.startswith("core::option::Option") or sp.startswith("core::result::Result")):
             return self.unwrap_site(fn, B, b, t, args, name)
@@ -533,7 +550,8 @@ class NoPanic:
         if name == "from_elem" and len(args) == 2:
             u = B.upper(args[1], b)
             n = intval(self.W, ev, args[1])
-            if u <= ISIZE_MAX // 64 or (n is not None and n <= 4096):
+            rr = int_range(self.W, ev, args[1])
+            if u <= ISIZE_MAX // 64 or (n is not None and n <= 4096) or (rr is not None and rr[1] <= 4096):
                 return self.rec(fn, b, "vec-alloc", describe(P, args[1]), "proved", "length bounded")
             return self.rec(fn, b, "vec-alloc", describe(P, args[1]), "open", "vec![x; n] with unbounded n")
         if name == "repeat" and sp.startswith("alloc::str"):
@@ -782,11 +800,20 @@ class NoPanic:
         n = array_len(bty)
         if n is not None:
             ln = ("int", n)
-        elif ev.stable_place(base):
-            ln = ("len", base)
         else:
-            ln = None
+            # facts about the 2-tuple form exist only for places that cannot change; for mutable containers the
+            # query then rests on type-level intervals and checked container invariants alone
+            ln = ("len", base)
         desc = "%s,%s" % (describe(P, base), describe(P, idx))
+        if idx[0] == "agg" and "ops::range::" in str(idx[1]) and is_call(base) and callee_name(base[1]) in ("finish", "as_ref"):
+            bl = bytelen(self.W, ev, base)
+            lab = str(idx[1]).split("::")[-1]
+            rr = [int_range(self.W, ev, o) for o in idx[2]]
+            if bl is not None and all(r is not None for r in rr):
+                if lab == "RangeTo" and rr[0][1] <= bl:
+                    return self.rec(fn, b, "slice-index", desc, "typed", "digest is %d bytes, slice end <= %d" % (bl, rr[0][1]))
+                if lab == "Range" and rr[0][1] <= rr[1][0] and rr[1][1] <= bl:
+                    return self.rec(fn, b, "slice-index", desc, "typed", "digest is %d bytes, range within it" % bl)
         if idx[0] == "agg" and "ops::range::" in str(idx[1]):
             lab = str(idx[1]).split("::")[-1]
             ops = idx[2]
@@ -808,6 +835,28 @@ class NoPanic:
                 return self.rec(fn, b, "index", desc, "proved", "index < len")
             return self.rec(fn, b, "index", desc, "open", "cannot prove %s < len(%s)" % (describe(P, idx), describe(P, base)))
         return self.rec(fn, b, "index", desc, "open", "unrecognised index type " + ity)
+
+
+def int_range(W, ev, t, depth=0):
+    """(min, max) of an integer term whose alternatives (phi / match arms of crate-local accessors) all evaluate to
+    constants, else None."""
+    if depth > 6 or not isinstance(t, tuple):
+        return None
+    v = intval(W, ev, t)
+    if v is not None:
+        return (v, v)
+    if t[0] == "phi":
+        rs = [int_range(W, ev, a, depth + 1) for a in t[1]]
+        if all(r is not None for r in rs) and rs:
+            return (min(r[0] for r in rs), max(r[1] for r in rs))
+        return None
+    if t[0] == "cast":
+        return int_range(W, ev, t[3], depth + 1)
+    if t[0] == "call" and t[1] in W.prog.fns:
+        r = ev.inline(t)
+        if r != t:
+            return int_range(W, ev, r, depth + 1)
+    return None
 
 
 def report(ctx, engine, records, rule="no-panic"):
